@@ -140,6 +140,40 @@ def run(spec, out):
         run_catalogue(spec, out)
 
 
+def probes():
+    """Open known finding: `max_nodes` reached in the middle of a level
+    swap (RuntimeError 'full' from find_or_add inside `_swap`) leaves the
+    levels half-swapped."""
+    from .. import fix, inv, tt
+    from ..denote import Den
+    from ..viol import Violation
+    names = ('a', 'b', 'ab')
+    b = fix.new_bdd(list(names))
+    u = b.add_expr(r'(a /\ b) \/ (~ a /\ ab)')
+    b.incref(u)
+    b.collect_garbage()
+    want = Den(b, names)(u)
+    b.max_nodes = len(b._succ)
+    key = 'max-nodes-reached-during-swap'
+    try:
+        b.swap(0, 1)
+    except RuntimeError:
+        pass
+    else:
+        return [(key, 'swap stayed below the limit', False)]
+    b.max_nodes = 10 ** 9
+    try:
+        inv.check_order(b)
+        inv.check_structure(b)
+        if Den(b, names)(u) != want:
+            raise Violation('held reference denotes another function')
+    except (Violation, AssertionError, KeyError) as e:
+        return [(key, 'swap(0, 1) with max_nodes == len(bdd) raises '
+                 "RuntimeError('full') after moving some nodes; "
+                 f'afterwards: {type(e).__name__}({e})', True)]
+    return [(key, 'manager intact after the failed swap', False)]
+
+
 def replay_into(case, out):
     if case.get('kind') == 'algebra':
         from . import c15
